@@ -79,41 +79,84 @@ fn main() {
         .filter(|l| !l.trim().is_empty())
         .collect();
     let n = lines.len();
-    let chunk = n.div_ceil(threads.max(1)).max(1);
     let mode_ref = &mode;
-    let results: Vec<Vec<String>> = std::thread::scope(|s| {
-        let handles: Vec<_> = lines
-            .chunks(chunk)
-            .map(|ch| {
-                s.spawn(move || {
-                    ch.iter()
-                        .map(|line| {
-                            let job: Value = match serde_json::from_str(line) {
-                                Ok(v) => v,
-                                Err(e) => {
-                                    return json!({"status":"badjob","msg":e.to_string()})
-                                        .to_string()
-                                }
-                            };
-                            let out = match mode_ref.as_str() {
-                                "gen" => gen::run(&job),
-                                "serdecase" => serdecase(&job),
-                                "topsort" => topo::run(&job),
-                                "safeint" => safeint::run(&job),
-                                _ => json!({"status":"badmode"}),
-                            };
-                            out.to_string()
-                        })
-                        .collect::<Vec<_>>()
-                })
-            })
-            .collect();
-        handles.into_iter().map(|h| h.join().unwrap()).collect()
+    // Jobs are handed out one at a time (shared counter), results are kept per index.
+    // Watchdog: a job that runs longer than the limit is a hang of the code under test (data, not a tool error): the
+    // driver prints what it has as {"_k": index, "r": result} lines, names the stuck jobs on stderr ("HANG <index>") and
+    // leaves with exit code 3; the orchestrator re-runs only the jobs that have neither a result nor a HANG line.
+    let limit_ms = std::env::var("VERIF_DRIVER_JOB_TIMEOUT")
+        .ok()
+        .and_then(|s| s.parse::<f64>().ok())
+        .map(|s| (s * 1000.0) as u128)
+        .unwrap_or(20_000);
+    let nthreads = threads.max(1).min(n.max(1));
+    let next = std::sync::atomic::AtomicUsize::new(0);
+    let running: std::sync::Arc<Vec<std::sync::Mutex<Option<(usize, std::time::Instant)>>>> =
+        std::sync::Arc::new((0..nthreads).map(|_| std::sync::Mutex::new(None)).collect());
+    let results: std::sync::Arc<Vec<std::sync::Mutex<Option<String>>>> =
+        std::sync::Arc::new((0..n).map(|_| std::sync::Mutex::new(None)).collect());
+    {
+        let running = running.clone();
+        let results = results.clone();
+        std::thread::spawn(move || loop {
+            std::thread::sleep(std::time::Duration::from_millis(200));
+            let stuck: Vec<usize> = running
+                .iter()
+                .filter_map(|slot| *slot.lock().unwrap())
+                .filter(|(_, t0)| t0.elapsed().as_millis() >= limit_ms)
+                .map(|(idx, _)| idx)
+                .collect();
+            if stuck.is_empty() {
+                continue;
+            }
+            // give the other threads a moment: siblings of the same input are probably about to get stuck too
+            std::thread::sleep(std::time::Duration::from_millis((limit_ms / 2) as u64));
+            let stdout = std::io::stdout();
+            let mut w = std::io::BufWriter::new(stdout.lock());
+            for (k, r) in results.iter().enumerate() {
+                if let Some(r) = r.lock().unwrap().as_ref() {
+                    writeln!(w, "{{\"_k\":{k},\"r\":{r}}}").unwrap();
+                }
+            }
+            w.flush().unwrap();
+            for slot in running.iter() {
+                if let Some((idx, t0)) = *slot.lock().unwrap() {
+                    if t0.elapsed().as_millis() * 2 >= limit_ms {
+                        eprintln!("HANG {idx}");
+                    }
+                }
+            }
+            std::process::exit(3);
+        });
+    }
+    let (running_ref, results_ref, next_ref, lines_ref) = (&running, &results, &next, &lines);
+    std::thread::scope(|s| {
+        for ti in 0..nthreads {
+            s.spawn(move || loop {
+                let k = next_ref.fetch_add(1, std::sync::atomic::Ordering::SeqCst);
+                if k >= n {
+                    break;
+                }
+                *running_ref[ti].lock().unwrap() = Some((k, std::time::Instant::now()));
+                let out = match serde_json::from_str::<Value>(&lines_ref[k]) {
+                    Err(e) => json!({"status":"badjob","msg":e.to_string()}),
+                    Ok(job) => match mode_ref.as_str() {
+                        "gen" => gen::run(&job),
+                        "serdecase" => serdecase(&job),
+                        "topsort" => topo::run(&job),
+                        "safeint" => safeint::run(&job),
+                        _ => json!({"status":"badmode"}),
+                    },
+                };
+                *results_ref[k].lock().unwrap() = Some(out.to_string());
+                *running_ref[ti].lock().unwrap() = None;
+            });
+        }
     });
     let stdout = std::io::stdout();
     let mut w = std::io::BufWriter::new(stdout.lock());
-    for r in results.into_iter().flatten() {
-        writeln!(w, "{r}").unwrap();
+    for r in results.iter() {
+        writeln!(w, "{}", r.lock().unwrap().as_ref().expect("result")).unwrap();
     }
     w.flush().unwrap();
 }
